@@ -330,7 +330,10 @@ def gen_block(rng, o, depth, in_quote, prev):
         # one in twelve ATX headings is EMPTY (spec 4.2: "ATX headings can be empty"): `#`, `# `, `## ##`
         return N('atx', level=rng.randint(1, 6), kids=gen_inlines(rng, o, n=rng.randint(1, 4), allow_break=False) if rng.random() > 0.085 else [],
                  closing=rng.choice([0, 0, 1, 3]), indent=rng.randint(0, 3))
-    if r < 0.42 and (o.setext_in_quote or not in_quote):
+    # inside a block quote the pinned Quote.read has setext headings switched off (recorded finding) - until a NESTED quote has been
+    # read, which switches them on again for the rest of the enclosing quote: a setext heading whose previous sibling is a quote is
+    # recognised, and is generated here
+    if r < 0.42 and (o.setext_in_quote or not in_quote or (prev is not None and prev.kind == 'quote')):
         return N('setext', level=rng.choice([1, 2]), kids=gen_inlines(rng, o, n=rng.randint(1, 5), allow_break=False), ul=rng.randint(1, 6))
     if r < 0.46:
         return N('hr', s=rng.choice(['***', '---', '___', '* * *', '- - -', '_____']), indent=rng.randint(0, 3))
